@@ -760,6 +760,9 @@ func binary(p *Parser, left Expr) (Expr, error) {
 	prec := p.rule(opToken.Tag).prec
 	if prec != PrecAssign {
 		prec++
+	} else if err := p.checkAssignmentTarget(left); err != nil {
+		// += -= *= /= assign to their left operand
+		return nil, err
 	}
 	expr, err := p.expressionWithPrec(prec)
 	if err != nil {
@@ -835,14 +838,22 @@ func (p *Parser) rewriteCompundAssingment(left Expr, right Expr, opToken Token) 
 	}, nil
 }
 
-func assign(p *Parser, left Expr) (Expr, error) {
+// only a variable, a member or an index can be assigned to
+func (p *Parser) checkAssignmentTarget(left Expr) error {
 	switch e := left.(type) {
-	case *ExprLiteral, *ExprArray, *ExprObject:
-		return nil, p.error(left.Token().Pos, "invalid assignment")
+	case *ExprIdentifier:
+		return nil
 	case *ExprBinary:
-		if e.OpToken.Tag != Dot && e.OpToken.Tag != LSquare {
-			return nil, p.error(left.Token().Pos, "invalid assignment")
+		if e.OpToken.Tag == Dot || e.OpToken.Tag == LSquare {
+			return nil
 		}
+	}
+	return p.error(left.Token().Pos, "invalid assignment")
+}
+
+func assign(p *Parser, left Expr) (Expr, error) {
+	if err := p.checkAssignmentTarget(left); err != nil {
+		return nil, err
 	}
 
 	_, err := p.advance()
